@@ -28,7 +28,7 @@ def run(pid, tier, replay=None):
     r = vlib.run_harness([exe, out, sc.path("g"), "14", "3000" if q else "60000", str(ck.seed)], timeout=1800)
     m = re.search(r"^SUMMARY (\{.*\})$", r.stdout or "", re.M)
     if r.returncode != 0 or not m:
-        if r.returncode in (97, 98, 99, -6, -11) or "Sanitizer" in (r.stderr or ""):
+        if r.returncode in (96, 97, 98, 99, -6, -11) or "Sanitizer" in (r.stderr or ""):
             ck.violation("crash", {"what": "sanitizer abort in the trajectory routines", "stderr": (r.stderr or "")[-1500:]})
             return ck.finish()
         raise Broken("harness failed rc=%s: %s" % (r.returncode, (r.stderr or "")[-1500:]))
